@@ -16,6 +16,7 @@ ASSUMPTIONS = ["sync/atomic operations are sequentially consistent (Go memory mo
 
 def corpus():
     return [
+        "run prop=C01 mode=constant rate=3000000/100ms dist=none dur=250 conc=1 body=400 timeout=5000",   # D22: millions pending when the run ends
         "progress.script s5;S1000[s:s7+f3][f:f9];T",          # D1 witness: completions landing inside a collect
         "progress.script f7;T[f:f9];T",
         "progress.script s1;s2;S1[s:s3];S1[s:s4];S1;T",
